@@ -29,6 +29,10 @@
 (*   bit 64      malformed record (q not distinct, lengths, eps not +-1)    *)
 (*   bit 128 (e') TX # the same substitution applied to the part of X that  *)
 (*               commutes with every S_i (documented culling)               *)
+(*   bit 512     a copy of the tapered operator obtained LATER from the same  *)
+(*               tapering object (after the first copy was modified in place, *)
+(*               or through z2_tapering(H)) fails clause (e)                  *)
+(*   bit 1024    the same for a later z2_tapering(X)                          *)
 (*   bit 256     information only: some S_i is NOT constant on the whole    *)
 (*               sector (extra Z2 symmetry: the sector ground state is      *)
 (*               retained only if it lies in the reference's symmetry class)*)
@@ -98,6 +102,8 @@ WellFormedJob(j) ==
   /\ Len(j.S) = j.k /\ Len(j.q) = j.k /\ Len(j.sg) = j.k /\ Len(j.eps) = j.k
   /\ Cardinality(SeqSet(j.q)) = j.k /\ \A x \in 1..j.k : j.q[x] \in 0..(j.n - 1) /\ j.sg[x] \in 1..3 /\ j.eps[x] \in {-1, 1}
   /\ WFWords(j.S, j.n) /\ WFTerms(j.H, j.n) /\ WFTerms(j.U, j.n) /\ WFTerms(j.T, j.n - j.k) /\ WFTerms(j.X, j.n) /\ WFTerms(j.TX, j.n - j.k)
+  /\ \A x \in 1..Len(j.TA) : WFTerms(j.TA[x], j.n - j.k)
+  /\ \A x \in 1..Len(j.TXA) : WFTerms(j.TXA[x], j.n - j.k)
   /\ Len(j.W) = j.nso /\ \A x \in 1..j.nso : Len(j.W[x].w) = j.n /\ j.W[x].s \in {-1, 1}
   /\ j.na \in 0..(j.nso \div 2) /\ j.nb \in 0..(j.nso \div 2)
 
@@ -120,8 +126,14 @@ Verdict(j) ==
       Xc  == CommutingPart(OpFromTerms(j.X), j.S, n)
       Xp  == OpMul(OpMul(U, Xc, n), Ud, n)
       b128 == IF ~j.has_x THEN 0 ELSE IF ClauseD(Xp, j.q, j.sg) /\ OpEq(OpFromTerms(j.TX), SubstDelete(Xp, n, j.q, j.eps)) THEN 0 ELSE 128
+      \* history: copies of the tapered operators requested AGAIN from the same tapering object after the first copies
+      \* were modified in place (and z2_tapering(H) itself): the certificate must hold for every one of them
+      b512 == IF j.structure \/ ~dOK THEN 0
+              ELSE IF \A x \in 1..Len(j.TA) : OpEq(OpFromTerms(j.TA[x]), SubstDelete(Hp, n, j.q, j.eps)) THEN 0 ELSE 512
+      b1024 == IF ~j.has_x \/ ~ClauseD(Xp, j.q, j.sg) THEN 0
+               ELSE IF \A x \in 1..Len(j.TXA) : OpEq(OpFromTerms(j.TXA[x]), SubstDelete(Xp, n, j.q, j.eps)) THEN 0 ELSE 1024
       b256 == IF ~j.has_f THEN 0 ELSE IF \A x \in 1..j.k : fs[x].strong THEN 0 ELSE 256
-  IN b1 + b2 + b4 + b8 + b16 + b32 + b128 + b256
+  IN b1 + b2 + b4 + b8 + b16 + b32 + b128 + b256 + b512 + b1024
 
 \* structure export (real molecules): for every word of H the tapered word and the sign of its coefficient
 Structure(j) ==
@@ -140,6 +152,6 @@ JInit == i \in 1..Len(Jobs)
 JNext == /\ i > 0
          /\ LET v == Verdict(Jobs[i]) IN
               /\ PrintT(<<"V", Jobs[i].id, v>>)
-              /\ (Jobs[i].structure /\ v % 256 = 0 => PrintT(<<"ST", ToJson([id |-> Jobs[i].id, st |-> Structure(Jobs[i])])>>))
+              /\ (Jobs[i].structure /\ v % 256 = 0 /\ v < 512 => PrintT(<<"ST", ToJson([id |-> Jobs[i].id, st |-> Structure(Jobs[i])])>>))
          /\ i' = 0
 =============================================================================
